@@ -5,6 +5,8 @@ from .C09 import const_name
 from . import C04
 
 REQUIRES = ['salt']
+USES_QUERIES = True
+USES_KNOWN_VALUES = True
 EXPLANATION = (
     "FLOW/TABLE/WHO rules. C17.1: add_salt_instance = add_assertion(self, 'salt', salt): one assertion, subject and other assertions "
     "untouched (with C04/C07). C17.2: the proportional form passes len(to_cbor_data(tagged_cbor(self))) - the size of the WHOLE envelope - "
@@ -12,11 +14,11 @@ EXPLANATION = (
     "SecureRandomNumberGenerator to its _using sibling (census of RNG values reaching Salt::new_*_using). C17.4: the length/range forms "
     "pass the caller's value unchanged to Salt::new_with_len_using / new_in_range_using and propagate the refusal with `?`. C17.5: in the "
     "salted add, the inserted envelope is add_salt(assertion) iff salted, else the assertion; the duplicate test and the validity test of "
-    "C04.3/C04.4 apply to the very element inserted (so a salted add is not suppressed by an equal unsalted assertion). C17.6: a salted assertion is still found by its predicate - the C15.5 lookup rules (filter on subject(a)) re-evaluated here. Does not decide the "
+    "C04.3/C04.4 apply to the very element inserted (so a salted add is not suppressed by an equal unsalted assertion). C17.6: a salted assertion is still found by its predicate - the C15.5 lookup rules (filter on subject(a)) re-evaluated here. C17.7: add_assertions_salted is the unconditional left fold of add_assertion_envelope_salted(acc, a, salted) over every listed assertion. Does not decide the "
     "documented length range / >= 8 refusal (inside bc_components::Salt) nor distinctness across invocations (randomness).")
 TRUSTED = ['Salt::new_for_size_using / new_with_len_using / new_in_range_using implement the documented length rules',
            'SecureRandomNumberGenerator is the OS CSPRNG']
-FLOORS = {'C17.1': 1, 'C17.2': 1, 'C17.3': 3, 'C17.4': 6, 'C17.5': 2, 'C17.6': 4}
+FLOORS = {'C17.1': 1, 'C17.2': 1, 'C17.3': 3, 'C17.4': 6, 'C17.5': 2, 'C17.6': 4, 'C17.7': 1}
 P1, P2, P3 = ('param', 1), ('param', 2), ('param', 3)
 
 
@@ -195,3 +197,33 @@ def check(ctx):
         C15.check(Relabel(ctx, 'C17.6', ['C15.5']))
     except Exception as e:
         ctx.fail('C17.6', '-', 'predicate lookup rules (C15.5) could not be evaluated: %r' % e, key='C17.6|c15')
+    # C17.7: the batch entry point adds EVERY listed assertion through the single salted add (each to the envelope that already carries
+    # the earlier ones, same `salted` flag): a left fold with an unconditional step - nothing is skipped, so equal assertions of one
+    # batch are each added with their own salt
+    F = ctx.F
+    P1, P2, P3 = ('param', 1), ('param', 2), ('param', 3)
+    b = F.method1('Envelope', 'add_assertions_salted')
+    if b is None:
+        ctx.lost('C17.7', 'Envelope::add_assertions_salted')
+    else:
+        tb = TermBuilder(F, b)
+        ff = fold_form(F, b, tb)
+        good = False
+        if ff is not None:
+            init, step, accm = ff
+            st = strip_sites(detry(step))
+            u = m_call(st, name='unwrap') or m_call(st, name='expect')
+            if u is not None:
+                st = strip_sites(detry(u[0]))
+            a = m_call(st, name='add_assertion_envelope_salted', self_suffix='Envelope')
+            init_ok = strip_sites(init) == P1 or (m_call(init, name='clone') is not None and strip_sites(m_call(init, name='clone')[0]) == P1)
+            if a is not None and len(a) == 3 and init_ok and strip_sites(a[0]) == accm and strip_sites(a[2]) == P3:
+                x = strip_sites(a[1])
+                while x[0] == 'call' and call_name(x) in ('clone', 'deref', 'borrow') and len(x[2]) == 1:
+                    x = strip_sites(x[2][0])
+                good = x[0] == 'elem' and strip_sites(elem_source(x[1]) if x[1][0] != 'param' else x[1]) == P2
+        if good:
+            ctx.ok('C17.7', ctx.site(b), 'add_assertions_salted = fold(assertions, self, |acc, a| add_assertion_envelope_salted(acc, a, salted)), the step taken for every element', sample=fmt(ff[1]))
+        else:
+            ctx.fail('C17.7', ctx.site(b), 'add_assertions_salted is not the unconditional fold of the single salted add over every listed assertion (an element is skipped, added '
+                     'to the wrong envelope, or with another flag): %s' % fmt(strip_sites(tb.return_term()))[:300], key='C17.7|batch')
